@@ -6,7 +6,7 @@
 From Coq Require Import List ZArith.
 From PM Require Import Model.Data Model.Tree Model.StepMap Model.Step Model.Transform Spec.Tokens Proofs.TransformProofs
   Proofs.ReplaceValid Proofs.SliceSides Proofs.SliceShape Proofs.TokenLaws Proofs.StepTokens
-  Proofs.TokenInj Proofs.ReplaceCanon Proofs.DocEquality Proofs.AroundUndo Proofs.AttrUndo Proofs.HistoryUndo Model.Resolve Model.Mark Proofs.MarkProofs.
+  Proofs.TokenInj Proofs.ReplaceCanon Proofs.DocEquality Proofs.TokenBasics Proofs.AroundUndo Proofs.AttrUndo Proofs.NodeMarkUndo Proofs.CanonicalMarks Proofs.HistoryUndo Model.Resolve Model.Mark Proofs.MarkProofs.
 Import ListNotations.
 Local Open Scope nat_scope.
 
@@ -119,10 +119,48 @@ Theorem C04_doc_attr_step_undo : forall s attr value doc d' inv d'',
 Proof. exact doc_attr_step_undo. Qed.
 Print Assumptions C04_doc_attr_step_undo.
 
+(* node-mark steps. An AddNodeMarkStep that is a plain insertion (the node's mark set grows by one: the mark is not
+   there yet and displaces nothing) has RemoveNodeMarkStep of the same mark as its inverse, and the inverse gives back
+   exactly the original token sequence. (When the new mark displaces marks the undo is not exact: recorded upstream
+   findings C04-node-mark-one-sided-exclusion and C04-node-mark-displaces-several.) *)
+Theorem C04_add_node_mark_undo : forall s pos mk doc d' inv d'',
+  check s doc = true -> check s d' = true ->
+  (forall n, node_at s (S (node_size s doc)) doc pos = Ok (Some n) ->
+     NodeNormal s n /\ List.length (add_to_set s mk (node_marks n)) = S (List.length (node_marks n))) ->
+  apply s (SAddNodeMark pos mk) doc = ROk d' ->
+  invert_step s (SAddNodeMark pos mk) doc = Ok inv ->
+  apply s inv d' = ROk d'' ->
+  inv = SRemoveNodeMark pos mk /\ DT s d'' = DT s doc.
+Proof. intros s pos mk doc d' inv d'' Hd Hd' Hn Ha Hi Hb. exact (add_node_mark_undo_on s pos mk doc d' inv d' d'' Hd Hn Ha Hi Hd' eq_refl Hb). Qed.
+Print Assumptions C04_add_node_mark_undo.
+
+(* A RemoveNodeMarkStep whose mark is not on the node changes nothing and is its own inverse; one that removes the
+   mark is undone by re-adding it, exactly, provided re-adding puts it back in its old place *)
+Theorem C04_remove_node_mark_undo : forall s pos mk doc d' inv d'',
+  check s doc = true -> check s d' = true ->
+  (forall n, node_at s (S (node_size s doc)) doc pos = Ok (Some n) ->
+     NodeNormal s n /\ msnorm (add_to_set s mk (remove_from_set mk (node_marks n))) = msnorm (node_marks n)) ->
+  apply s (SRemoveNodeMark pos mk) doc = ROk d' ->
+  invert_step s (SRemoveNodeMark pos mk) doc = Ok inv ->
+  apply s inv d' = ROk d'' ->
+  DT s d'' = DT s doc.
+Proof. intros s pos mk doc d' inv d'' Hd Hd' Hn Ha Hi Hb. exact (remove_node_mark_undo_on s pos mk doc d' inv d' d'' Hd Hn Ha Hi Hd' eq_refl Hb). Qed.
+Print Assumptions C04_remove_node_mark_undo.
+
+(* ... and re-adding does put it back in place whenever the node's mark set is canonical (rank-sorted, pairwise
+   compatible - what Node.check demands) and holds no OTHER mark of the removed mark's type. (With a second mark of
+   the same type behind it the order changes: recorded finding C04-node-mark-same-type-order.) *)
+Theorem C04_readd_in_place : forall s mk set,
+  sorted_rank set -> PairOK s set -> is_in_set mk set = true ->
+  (forall o, In o set -> m_ty o = m_ty mk -> mark_eqb o mk = true) ->
+  msnorm (add_to_set s mk (remove_from_set mk set)) = msnorm set.
+Proof. exact readd_in_place. Qed.
+Print Assumptions C04_readd_in_place.
+
 (* ------------------------------------------------------------------ whole histories
    [inverses s d sts]: the inverse of every step, each built from the document the step was applied to, in undo
-   order (last step first). [UndoableAll]: every step is a replace / replace-around / attribute / document-attribute
-   step meeting the hypotheses of its single-step theorem above. [Run s e invs r]: the inverses apply one after the
+   order (last step first). [UndoableAll]: every step is a replace / replace-around / attribute / document-attribute /
+   node-mark step meeting the hypotheses of its single-step theorem above. [Run s e invs r]: the inverses apply one after the
    other, each to a valid document, and give r.
    For ANY sequence of attempted steps (so: for every history the transform API can record, rejected operations
    included), undoing the recorded steps in reverse order - starting from the final document or from any valid
@@ -161,3 +199,30 @@ Example C04_around_example :
     check s doc = true /\ check s d' = true /\ apply s st doc = ROk d' /\ invert_step s st doc = Ok inv /\
     apply s inv d' = ROk d'' /\ inv = SReplaceAround 0 6 1 5 (SL [] 0 0) 0 true.
 Proof. cbv zeta. eexists. eexists. eexists. repeat split; vm_compute; reflexivity. Qed.
+
+(* the node-mark hypotheses are met: over the example schema with marks allowed inside blockquote, adding the em
+   mark to the paragraph at position 5 is a plain insertion, and its inverse removes it again *)
+Definition all_marks (nt : ntype) : ntype :=
+  {| nt_name := nt_name nt; nt_attrs := nt_attrs nt; nt_start := nt_start nt; nt_inline := nt_inline nt;
+     nt_inline_content := nt_inline_content nt; nt_markset := None; nt_groups := nt_groups nt;
+     nt_isolating := nt_isolating nt; nt_atom_spec := nt_atom_spec nt; nt_defining_ctx := nt_defining_ctx nt;
+     nt_defining_content := nt_defining_content nt; nt_code := nt_code nt; nt_marks_spec := nt_marks_spec nt |}.
+Definition ex_schema_nm : schema :=
+  let s0 := Properties.C01.ex_schema in
+  {| s_nodes := match s_nodes s0 with [d; p; b; t] => [d; p; all_marks b; t] | l => l end;
+     s_marks := s_marks s0; s_states := s_states s0; s_top := s_top s0; s_text := s_text s0 |}.
+Example C04_node_mark_example :
+  let s := ex_schema_nm in let doc := Properties.C01.ex_doc in let em := {| m_ty := 0%nat; m_attrs := [] |} in
+  exists d' d'',
+    apply s (SAddNodeMark 5 em) doc = ROk d' /\ apply s (SRemoveNodeMark 5 em) d' = ROk d'' /\
+    invert_step s (SAddNodeMark 5 em) doc = Ok (SRemoveNodeMark 5 em) /\
+    check s doc = true /\ check s d' = true /\ d' <> doc /\
+    (forall n, node_at s (S (node_size s doc)) doc 5 = Ok (Some n) ->
+       NodeNormal s n /\ List.length (add_to_set s em (node_marks n)) = S (List.length (node_marks n))).
+Proof.
+  cbv zeta. eexists. eexists. split; [vm_compute; reflexivity|]. split; [vm_compute; reflexivity|].
+  split; [vm_compute; reflexivity|]. split; [vm_compute; reflexivity|]. split; [vm_compute; reflexivity|].
+  split; [discriminate|].
+  intros n Hn. vm_compute in Hn. inversion Hn; subst n. split; [|vm_compute; reflexivity].
+  split; [constructor|]. split; [vm_compute; reflexivity|exact I].
+Qed.
